@@ -180,8 +180,9 @@ def run_query_case(prop, case, fail):
         for s, d in e1:
             fail("C01." + s, d)
         return
-    if e1:
-        return      # C02 is stated for valid batches; the C01 check reports those
+    if any(s_ in ("not_ndarray", "not_1d", "wrong_size", "not_integer") for s_, _ in e1):
+        return      # a malformed batch cannot be compared with the utility rows; the C01 check reports it
+    # duplicates / non-candidates in the batch are C01's business, but the rows can still be compared with the selection as returned
     if name.startswith("SubSamplingWrapper"):
         # non-subsample candidates carry -inf: selectable positions are those with a finite-or-inf number; check NaN pattern on candidates
         U2 = np.asarray(U)
@@ -419,6 +420,12 @@ def run_c09(case, fail):
         return
     X, y = make_data(case["dseed"], case["n"], max(case["nl"], 2), "clf", case["dup"])
     ref = None
+    # every third case offers a strict subset of the unlabeled samples as index candidates (the other unlabeled samples then count as
+    # 'known' samples inside some strategies: their sentinel must not be mistaken for a class)
+    cand = None
+    unl_ = np.where(np.isnan(y))[0]
+    if case["t"] % 3 == 1 and len(unl_) >= 3:
+        cand = np.sort(np.random.RandomState(case["dseed"] + 9).choice(unl_, len(unl_) - 1 - (len(unl_) > 4), replace=False))
     for tag, ml, cl, dt in ENCODINGS:
         if dt is object:
             yy = np.array([None if np.isnan(v) else cl[int(v)] for v in y], dtype=object)
@@ -429,7 +436,7 @@ def run_c09(case, fail):
         try:
             qs = make_strategy(name, case["sseed"], ml, cl)
             kw = z["kwargs"](ml, cl, case["sseed"])
-            q, U = qs.query(X, yy, batch_size=case["b"], return_utilities=True, **kw)
+            q, U = qs.query(X, yy, candidates=cand, batch_size=case["b"], return_utilities=True, **kw)
             img = (tuple(int(i) for i in np.asarray(q).ravel()), np.asarray(U, dtype=float))
         except Exception as e:
             if ref is not None:
